@@ -681,6 +681,34 @@ func (se *specEnv) evalCall(n *SCall) (specVal, error) {
 	case "typeis":
 		// typeis(x, "pkg.Type") for interface values: dynamic type test by registered name
 		return specVal{}, fmt.Errorf("typeis not supported")
+	case "formatUint":
+		as, err := args()
+		if err != nil {
+			return specVal{}, err
+		}
+		e.sc.DeclareFun("format_uint", []string{SInt, SInt}, SString)
+		return specVal{t: App(SString, "format_uint", as[0].t, as[1].t)}, nil
+	case "fresh":
+		// fresh(p): p was allocated since the old state (during the call / function)
+		as, err := args()
+		if err != nil {
+			return specVal{}, err
+		}
+		pt := as[0].t
+		if pt.Sort == SSlice {
+			pt = App(SInt, "sref", pt)
+		}
+		return specVal{t: And(App(SBool, ">", pt, e.lookup(se.old, "alloc", SInt)), App(SBool, "<=", pt, e.lookup(se.cur, "alloc", SInt)))}, nil
+	case "allocated":
+		as, err := args()
+		if err != nil {
+			return specVal{}, err
+		}
+		pt := as[0].t
+		if pt.Sort == SSlice {
+			pt = App(SInt, "sref", pt)
+		}
+		return specVal{t: And(App(SBool, ">", pt, IntLit(0)), App(SBool, "<=", pt, e.lookup(se.cur, "alloc", SInt)))}, nil
 	case "isBound":
 		// isBound(f, recv, "method"): f is the method value recv.method
 		if len(n.Args) != 3 {
@@ -954,6 +982,16 @@ func (se *specEnv) typed(v Term, t types.Type) {
 // one more select (heap reads). Each becomes an alternative single-term pattern. Only used when a
 // single bound variable is quantified (multi-variable bodies are left to the solver).
 func triggerPatterns(body string, vars []string) []string {
+	if len(vars) == 2 {
+		a := triggerPatterns(body, vars[:1])
+		b := triggerPatterns(body, vars[1:])
+		if len(a) == 0 || len(b) == 0 {
+			return nil
+		}
+		ta := strings.TrimSuffix(strings.TrimPrefix(a[0], ":pattern ("), ")")
+		tb := strings.TrimSuffix(strings.TrimPrefix(b[0], ":pattern ("), ")")
+		return []string{":pattern (" + ta + " " + tb + ")"}
+	}
 	if len(vars) != 1 {
 		return nil
 	}
